@@ -952,26 +952,32 @@ func (g *generatorObject) step(res Value, resType resultType, ex *Exception) Val
 }
 
 func (g *generatorObject) delegate(v Value) Value {
+	// yield* is evaluated by the running generator: re-entrant calls made by user code must be rejected
+	state := g.state
+	g.state = genStateExecuting
 	ex := g.val.runtime.try(func() {
 		g.delegated = g.val.runtime.getIterator(v, nil)
 	})
 	if ex != nil {
 		g.delegated = nil
-		g.state = genStateCompleted
 		return g.step(g.gen.nextThrow(ex))
 	}
+	g.state = state
 	return g.next(_undefined)
 }
 
 func (g *generatorObject) tryCallDelegated(fn func() (Value, bool)) (ret Value, done bool) {
+	// the generator is running while the delegate's next/throw/return is called
+	state := g.state
+	g.state = genStateExecuting
 	ex := g.val.runtime.try(func() {
 		ret, done = fn()
 	})
 	if ex != nil {
 		g.delegated = nil
-		g.state = genStateExecuting
 		return g.step(g.gen.nextThrow(ex)), false
 	}
+	g.state = state
 	return
 }
 
